@@ -267,7 +267,8 @@ func handleZDIFF(params internal.HandlerFuncParams) ([]byte, error) {
 	withscoresIndex := slices.IndexFunc(params.Command, func(s string) bool {
 		return strings.EqualFold(s, "withscores")
 	})
-	if withscoresIndex > -1 && withscoresIndex < 2 {
+	if withscoresIndex > -1 && (withscoresIndex < 2 || withscoresIndex != len(params.Command)-1) {
+		// WITHSCORES needs at least one key before it and is the last argument.
 		return nil, errors.New(constants.WrongArgsResponse)
 	}
 
